@@ -396,11 +396,38 @@ WALK_K = {"x86_16": 8, "x86_32": 8, "x86_64": 8, "arm": 1, "armt": 6, "aarch64":
 X86_WALK_PFX = [(), (0x66,), (0x67,), (0xF3,)]
 
 
+def walk_rounds(n):
+    """development aid: VERIF_NOWALK=1 runs only the seed-dependent part (key collection over many
+    seeds); the seed-dependent candidates do not depend on the walk, so they are the same ones"""
+    return 0 if os.environ.get("VERIF_NOWALK") else n
+
+
+def _free_fields(fields):
+    return [i for i, (val, l, fname) in enumerate(fields) if val is None and l]
+
+
 def walk_items(spec, rounds=1, stride=1):
-    """[(class index, variant, round)] ordered variant-major; `stride` subsamples (C16)"""
-    ncls = len(_templates(spec))
+    """[(class index, variant, round)].  Round 0 starts with the *boundary variants* of every
+    class: all free fields zero, all ones, and each free field in turn zero / all ones with the
+    others random (rA=0, displacement 0, register 15/31, immediate -1 ... are where the
+    value-dependent defects live); then WALK_K random variants per class and round.
+    `stride` subsamples (C16)."""
+    tmpl = _templates(spec)
+    ncls = len(tmpl)
     k = WALK_K[spec.family]
-    items = [(ci, v, r) for r in range(rounds) for v in range(k) for ci in range(ncls)]
+    items = []
+    for ci in range(ncls):
+        items.append((ci, "z", 0))
+        items.append((ci, "o", 0))
+        free = _free_fields(tmpl[ci])
+        if spec.family == "arm" and ci % 15:
+            continue            # condition-expanded table: per-field variants for one condition in 15
+        if spec.unit == 1:
+            free = [i for i in free if tmpl[ci][i][2] in ("reg", "rm")]     # x86: the ModRM register fields
+        for fi in free[:8]:
+            items.append((ci, "f%d.0" % fi, 0))
+            items.append((ci, "f%d.1" % fi, 0))
+    items += [(ci, v, r) for r in range(rounds) for v in range(k) for ci in range(ncls)]
     if stride > 1:
         items = items[::stride]
     return items
@@ -408,20 +435,43 @@ def walk_items(spec, rounds=1, stride=1):
 
 def walk_candidate(spec, ci, v, rnd):
     import random
-    rng = random.Random("walk/%s/%d/%d/%d" % (spec.family, ci, v, rnd))
+    rng = random.Random("walk/%s/%d/%s/%d" % (spec.family, ci, v, rnd))
     fields = _templates(spec)[ci]
-    force = None
+    force = {}
     pre = b""
-    if spec.unit == 1:
+    fill = None
+    if isinstance(v, str):
+        # boundary variant
+        if v == "z":
+            fill = 0
+        elif v == "o":
+            fill = 1
+        else:
+            fi, bit = v[1:].split(".")
+            fi = int(fi)
+            fields = list(fields)
+            l = fields[fi][1]
+            fields[fi] = ((1 << l) - 1 if bit == "1" else 0, l, fields[fi][2])
+        if spec.unit == 1:
+            force["mod"] = 3 if ci % 2 == 0 else 1
+            if spec.mode == 64 and v in ("o",):
+                pre = b"\x48"
+        if fill is not None:
+            fields = [((((1 << l) - 1) if fill else 0) if (val is None and l and not (spec.unit == 1 and fname == "mod")) else val,
+                       l, fname) for (val, l, fname) in fields]
+    elif spec.unit == 1:
         force = {"mod": 3 if (v // len(X86_WALK_PFX)) % 2 == 0 else (ci + rnd) % 3}
         pre = bytes(bytearray(X86_WALK_PFX[v % len(X86_WALK_PFX)]))
         if spec.mode == 64 and (v + rnd) % 2 == 1:
             pre += bytes(bytearray([0x48 if (v + rnd) % 4 == 1 else 0x40 | rng.getrandbits(4)]))
     try:
-        be = _from_template(spec, fields, rng, force)
+        be = _from_template(spec, fields, rng, force or None)
     except Exception:
         be = b""
-    tail = bytes(bytearray(rng.getrandbits(8) for _ in range(16)))
+    if fill is not None:
+        tail = bytes(bytearray([0xFF if fill else 0] * 16))
+    else:
+        tail = bytes(bytearray(rng.getrandbits(8) for _ in range(16)))
     if spec.unit == 1:
         return (pre + be + tail)[:16]
     be = be + b"\0" * ((-len(be)) % spec.unit)
@@ -500,12 +550,16 @@ def x86_prefix_class(raw, mode):
     return ""
 
 
-def x86_strip_legacy(raw):
+def x86_strip_legacy(raw, only=None):
+    """remove the legacy prefixes (all of them, or only the kinds in `only`, e.g. lock/rep/repne)"""
     raw = bytearray(raw)
     i = 0
+    keep = bytearray()
     while i < len(raw) and raw[i] in _X86_LEGACY:
+        if only is not None and _X86_LEGACY[raw[i]] not in only:
+            keep.append(raw[i])
         i += 1
-    return bytes(raw[i:])
+    return bytes(keep + raw[i:])
 
 
 def _k(e):
